@@ -14,17 +14,24 @@
                old code    ([atomic] = false): step 1 (no lock): counter-1, if <= 0 go on to
                                                step 2 (under w.lock): if counter <= 0 then delete(entryTable, id), Put
    delete(entryTable, id) removes WHATEVER entry the ID has at that moment.
-   A schedule names, step by step, the goroutine that moves (and, for an acquire, message ID, reader/writer and the
-   pool's choice).  No proofs in this file. *)
+   Delete(ids...) is the loop the code has: for each id  acquire(id) ; Lock ; impl.Delete(id) ; Unlock ; release(id, ref);
+   [samekey] = the deferred releaseSyncRef is called with the ID that was acquired.
+   A schedule names, step by step, the goroutine that moves (and, for an acquire, message ID, reader/writer, the pool's
+   choice and the rest of a Delete batch).  No proofs in this file. *)
 From Coq Require Import List NArith ZArith Bool.
 Import ListNotations.
 
+(* b = (first ID of the operation's batch, IDs still to be deleted): Get/Set are batches of one; Delete(ids...) runs
+   acquire(id) ; Lock ; impl.Delete(id) ; Unlock ; release(id, ref) for one ID after the other *)
+Definition batch := (N * list N)%type.
+
 Inductive pc :=
-| PIdle                            (* between two operations *)
-| PAcq (i r : N) (w : bool)        (* acquireSyncRef returned object r for message i; w: Set/Delete, else Get *)
-| PIn (i r : N) (w : bool)         (* holds r's RWMutex: inside the wrapped store *)
-| POut (i r : N)                   (* RWMutex released, releaseSyncRef not yet run *)
-| PDec (i r : N).                  (* old release only: brought the counter to <= 0, waiting for w.lock *)
+| PIdle                                      (* between two operations *)
+| PNext (b : batch)                          (* Delete(ids...): between two IDs of the batch *)
+| PAcq (i r : N) (w : bool) (b : batch)      (* acquireSyncRef returned object r for message i; w: Set/Delete, else Get *)
+| PIn (i r : N) (w : bool) (b : batch)       (* holds r's RWMutex: inside the wrapped store *)
+| POut (i r : N) (b : batch)                 (* RWMutex released, releaseSyncRef not yet run *)
+| PDec (i r : N) (b : batch).                (* old release only: brought the counter to <= 0, waiting for w.lock *)
 
 Record state := mkS {
   s_table : N -> option N;
@@ -54,55 +61,72 @@ Definition upd {A} (f : N -> A) (k : N) (v : A) : N -> A := fun x => if N.eqb x 
 (* may a goroutine take r's RWMutex (w: for writing)?  the others that are inside on r decide *)
 Definition allows (r : N) (w : bool) (p : pc) : bool :=
   match p with
-  | PIn _ r' w' => negb (N.eqb r' r) || (negb w && negb w')
+  | PIn _ r' w' _ => negb (N.eqb r' r) || (negb w && negb w')
   | _ => true
   end.
 Definition can_enter (r : N) (w : bool) (thr : list pc) : bool := forallb (allows r w) thr.
 
-Record move := mkM { m_thr : nat; m_id : N; m_write : bool; m_pick : nat }.
+(* m_rest: the further IDs of a Delete(ids...) that starts with m_id (only read when an operation starts) *)
+Record move := mkM { m_thr : nat; m_id : N; m_write : bool; m_pick : nat; m_rest : list N }.
 
-Definition step (atomic reset : bool) (s : state) (m : move) : state :=
+(* acquireSyncRef(i) by goroutine t, one critical section *)
+Definition acquire (reset : bool) (s : state) (t : nat) (i : N) (w : bool) (b : batch) (pick : nat) : state :=
+  match s_table s i with
+  | Some r =>
+      mkS (s_table s) (s_pool s) (s_next s) (upd (s_cnt s) r (s_cnt s r + 1)%Z) (set_nth t (PAcq i r w b) (s_thr s))
+  | None =>
+      match take pick (s_pool s) with
+      | Some (r, pool') =>
+          mkS (upd (s_table s) i (Some r)) pool' (s_next s)
+              (if reset then upd (s_cnt s) r 1%Z else s_cnt s) (set_nth t (PAcq i r w b) (s_thr s))
+      | None =>
+          let r := s_next s in
+          mkS (upd (s_table s) i (Some r)) (s_pool s) (r + 1)%N (upd (s_cnt s) r 1%Z)
+              (set_nth t (PAcq i r w b) (s_thr s))
+      end
+  end.
+
+(* where a goroutine goes after releaseSyncRef *)
+Definition after_release (b : batch) : pc :=
+  match snd b with [] => PIdle | _ :: _ => PNext b end.
+
+(* atomic: releaseSyncRef is one critical section; reset: acquireSyncRef sets the counter of an inserted object;
+   samekey: releaseSyncRef is called with the ID that was acquired (otherwise with the first ID of the batch) *)
+Definition step (atomic reset samekey : bool) (s : state) (m : move) : state :=
   let t := m_thr m in
   match nth_error (s_thr s) t with
   | None => s
-  | Some PIdle =>
-      let i := m_id m in
-      let w := m_write m in
-      match s_table s i with
-      | Some r =>
-          mkS (s_table s) (s_pool s) (s_next s) (upd (s_cnt s) r (s_cnt s r + 1)%Z) (set_nth t (PAcq i r w) (s_thr s))
-      | None =>
-          match take (m_pick m) (s_pool s) with
-          | Some (r, pool') =>
-              mkS (upd (s_table s) i (Some r)) pool' (s_next s)
-                  (if reset then upd (s_cnt s) r 1%Z else s_cnt s) (set_nth t (PAcq i r w) (s_thr s))
-          | None =>
-              let r := s_next s in
-              mkS (upd (s_table s) i (Some r)) (s_pool s) (r + 1)%N (upd (s_cnt s) r 1%Z)
-                  (set_nth t (PAcq i r w) (s_thr s))
-          end
+  | Some PIdle => acquire reset s t (m_id m) (m_write m) (m_id m, m_rest m) (m_pick m)
+  | Some (PNext b) =>
+      match snd b with
+      | [] => mkS (s_table s) (s_pool s) (s_next s) (s_cnt s) (set_nth t PIdle (s_thr s))
+      | i :: rest => acquire reset s t i true (fst b, rest) (m_pick m)
       end
-  | Some (PAcq i r w) =>
+  | Some (PAcq i r w b) =>
       if can_enter r w (s_thr s)
-      then mkS (s_table s) (s_pool s) (s_next s) (s_cnt s) (set_nth t (PIn i r w) (s_thr s))
+      then mkS (s_table s) (s_pool s) (s_next s) (s_cnt s) (set_nth t (PIn i r w b) (s_thr s))
       else s
-  | Some (PIn i r w) => mkS (s_table s) (s_pool s) (s_next s) (s_cnt s) (set_nth t (POut i r) (s_thr s))
-  | Some (POut i r) =>
+  | Some (PIn i r w b) => mkS (s_table s) (s_pool s) (s_next s) (s_cnt s) (set_nth t (POut i r b) (s_thr s))
+  | Some (POut i r b) =>
+      let key := if samekey then i else fst b in
       let c := (s_cnt s r - 1)%Z in
       if atomic then
         if (c <=? 0)%Z
-        then mkS (upd (s_table s) i None) (r :: s_pool s) (s_next s) (upd (s_cnt s) r c) (set_nth t PIdle (s_thr s))
-        else mkS (s_table s) (s_pool s) (s_next s) (upd (s_cnt s) r c) (set_nth t PIdle (s_thr s))
+        then mkS (upd (s_table s) key None) (r :: s_pool s) (s_next s) (upd (s_cnt s) r c)
+                 (set_nth t (after_release b) (s_thr s))
+        else mkS (s_table s) (s_pool s) (s_next s) (upd (s_cnt s) r c) (set_nth t (after_release b) (s_thr s))
       else
         mkS (s_table s) (s_pool s) (s_next s) (upd (s_cnt s) r c)
-            (set_nth t (if (c <=? 0)%Z then PDec i r else PIdle) (s_thr s))
-  | Some (PDec i r) =>
+            (set_nth t (if (c <=? 0)%Z then PDec i r b else after_release b) (s_thr s))
+  | Some (PDec i r b) =>
+      let key := if samekey then i else fst b in
       if (s_cnt s r <=? 0)%Z
-      then mkS (upd (s_table s) i None) (r :: s_pool s) (s_next s) (s_cnt s) (set_nth t PIdle (s_thr s))
-      else mkS (s_table s) (s_pool s) (s_next s) (s_cnt s) (set_nth t PIdle (s_thr s))
+      then mkS (upd (s_table s) key None) (r :: s_pool s) (s_next s) (s_cnt s) (set_nth t (after_release b) (s_thr s))
+      else mkS (s_table s) (s_pool s) (s_next s) (s_cnt s) (set_nth t (after_release b) (s_thr s))
   end.
 
-Definition run (atomic reset : bool) (s : state) (sched : list move) : state := fold_left (step atomic reset) sched s.
+Definition run (atomic reset samekey : bool) (s : state) (sched : list move) : state :=
+  fold_left (step atomic reset samekey) sched s.
 
 (* n goroutines, empty table, empty pool *)
 Definition init (n : nat) : state := mkS (fun _ => None) [] 0%N (fun _ => 0%Z) (repeat PIdle n).
@@ -110,5 +134,5 @@ Definition init (n : nat) : state := mkS (fun _ => None) [] 0%N (fun _ => 0%Z) (
 (* mutual exclusion per message ID: two goroutines inside on the same ID are both readers *)
 Definition exclusive (s : state) : Prop :=
   forall t1 t2 i r1 r2 w1 w2, t1 <> t2 ->
-    nth_error (s_thr s) t1 = Some (PIn i r1 w1) -> nth_error (s_thr s) t2 = Some (PIn i r2 w2) ->
+    forall b1 b2, nth_error (s_thr s) t1 = Some (PIn i r1 w1 b1) -> nth_error (s_thr s) t2 = Some (PIn i r2 w2 b2) ->
     w1 = false /\ w2 = false.
